@@ -465,9 +465,40 @@ pub async fn do_query<C: Config>(
     keys: &[Key],
 ) {
     let te = eng.clone().tracked().await;
+    let has_partial = ls.p.nodes.iter().any(|n| matches!(n.body, crate::pq::Body::Partial(_)));
     for k in keys {
         ls.cur_root = Some(*k);
-        let v = rig::query(sh, &te, *k).await;
+        let v = if has_partial {
+            // programs with partial executors: a panic of the query is an
+            // outcome (expected iff the from-scratch evaluation faults too)
+            use futures::FutureExt;
+            let r = std::panic::AssertUnwindSafe(rig::query(sh, &te, *k)).catch_unwind().await;
+            match r {
+                Ok(v) => v,
+                Err(pl) => {
+                    let msg = pl
+                        .downcast_ref::<String>()
+                        .cloned()
+                        .or_else(|| pl.downcast_ref::<&str>().map(|s| (*s).to_string()))
+                        .unwrap_or_default();
+                    let ev = sh.take_events();
+                    ls.absorb(&ev);
+                    let want = ls.r.eval(&ls.p, *k);
+                    // the from-scratch evaluation faults too: a panic is the
+                    // expected outcome (the engine may wrap the payload)
+                    if want.is_some() {
+                        ls.c01(format!(
+                            "query {k:?} panicked ({msg}); from-scratch value is {want:?}: an executor was run on a \
+                             state that a from-scratch evaluation never reaches"
+                        ));
+                    }
+                    let _ = crate::xplore::take_panic_log();
+                    continue;
+                }
+            }
+        } else {
+            rig::query(sh, &te, *k).await
+        };
         let ev = sh.take_events();
         ls.absorb(&ev);
         ls.user_value(*k, v);
@@ -796,6 +827,15 @@ pub fn alphabet(p: &Program, rich: bool) -> Vec<Op> {
             ]));
         }
     }
+    if ins.len() >= 2 {
+        // both inputs changed in one session, then everything queried
+        for (a, b) in [(2, 1), (1, 0)] {
+            ops.push(Op::Multi(vec![
+                Op::Session { writes: vec![W::Set(ins[0], a), W::Set(ins[1], b)], commit: true },
+                Op::Query(all_top_down.clone()),
+            ]));
+        }
+    }
     for &x in &xs {
         for v in [1, 0] {
             ops.push(Op::Multi(vec![
@@ -1072,6 +1112,19 @@ pub fn classify(p: &Program, h: &[Op], acts: &[(usize, Key)], f: &Finding) -> Ve
                     }
                 }
             }
+        }
+        return tags;
+    }
+    // F19: the user's query panicked although its from-scratch value exists:
+    // the panic came out of the transitive-firewall repair (JoinSet) that the
+    // outermost caller runs before anything else - a firewall with a partial
+    // executor was re-executed although the evaluation no longer demands it
+    if f.what.contains("panicked") && f.what.contains("JoinError(panic=true)") {
+        let partial_fw = p.nodes.iter().any(|n| {
+            n.style == crate::pq::Style::F && matches!(n.body, crate::pq::Body::Partial(_))
+        });
+        if partial_fw {
+            tags.push("F19-undemanded-firewall-repaired".to_string());
         }
         return tags;
     }
